@@ -173,8 +173,10 @@ impl<T: Clone> Clone for Range<T> {
 //@@ sig
     requires
         self.wf(),
-        //# C08.range_window_bounds_ordered
-        start.0 <= end.0, start.1 <= end.1,
+        //# C08.range_window_rows_ordered
+        start.0 <= end.0,
+        //# C08.range_window_cols_ordered
+        start.1 <= end.1,
     ensures
         window_of(r, *self, start, end),
 //@@ end
